@@ -7,6 +7,7 @@ import (
 	"encoding/json"
 	"fmt"
 	"os"
+	"sort"
 	"testing"
 
 	"pgregory.net/rapid"
@@ -66,7 +67,31 @@ func TestC20a(t *testing.T) {
 	if os.Getenv("VTOOL_REPLAY_ONLY") != "" {
 		return
 	}
+	var words []string
+	for w := range reservedWords {
+		words = append(words, w)
+	}
+	sort.Strings(words)
 	rapid.Check(t, func(rt *rapid.T) {
+		if len(words) > 0 && gspec.U(rt, 8, "reservedword") == 0 {
+			// the two front-ends keep separate tables of reserved words: every entry of the
+			// generated front-end's table, as a label, as a rule name and as a reference
+			w := gspec.Pick(rt, words, "word")
+			text := gspec.Pick(rt, []string{"A = " + w + ":'a' B\nB = 'b'\n", w + " = 'a'\n", "A = 'a' " + w + "\n" + w + " = 'b'\n", "A = x:'a' " + w + ":B\nB = 'b'\n"}, "wordtext")
+			kind, diff := checkC20a(text)
+			sum.note(text, true, "reserved_word")
+			if kind == "bootstrap_refused" {
+				// outside the subset the bootstrap front-end understands (it refuses reserved
+				// words in more places than the generated one): no claim
+				kind = ""
+				sum.Tags["reserved_word_outside_bootstrap_subset"]++
+			}
+			if kind != "" {
+				sum.fail(kind, diff, &c20Case{Text: text})
+				rt.Fatalf("%s: %s", kind, diff)
+			}
+			return
+		}
 		prof := gspec.Profile("bootsub")
 		if gspec.U(rt, 3, "names") == 0 {
 			prof.NameStyle = 1
